@@ -73,9 +73,9 @@ def join(parts, sep):
 def native_roundtrip(dname, D, shape, nextra=0, coords="int"):
     """replay: the same dialect and shape with adversarial concrete contents through the real code"""
     samples = ["x", "a b" if D["keyval separator"] != " " else "ab", "50%", "q\"uote" if D["fmt"] == "gff3" and D["quoted GFF2 values"] else "q", "e=1;2,3&" if D["fmt"] == "gff3" else "e1",
-               "é中", "tab\there" if D["fmt"] == "gff3" else "th"]
+               "é中", "tab\there" if D["fmt"] == "gff3" else "th", "g%41", "100%25", "a%3Bb"]
     bad = []
-    for rot in range(3):
+    for rot in range(len(samples)):
         items = []
         k = rot
         for ai, n in enumerate(shape):
